@@ -77,6 +77,10 @@ def classify(binary, root, patch_args, rel, flags):
         info["apply"] = ("nomatch",)
         return info
     if not logs:
+        if code == 1 and not out and errs.startswith("reformat ") and errs.count("\n") <= 1:
+            # the result was refused when it was re-read (imports.Process): the one failure -v does not log
+            info["apply"] = ("formaterr", errs.strip())
+            return info
         info["apply"] = ("unknown", errs)
         return info
     last = logs[-1]
